@@ -893,6 +893,13 @@ int cp_rsa_ver(uint8_t *sig, size_t sig_len, const uint8_t *msg, size_t msg_len,
 		return 0;
 	}
 
+	/* A signature is an octet string of exactly the length of the modulus. */
+	if (sig_len != bn_size_bin(pub->crt->n)) {
+		RLC_FREE(h1);
+		RLC_FREE(h2);
+		return 0;
+	}
+
 	pad_len = (!hash ? RLC_MD_LEN : msg_len);
 
 #if CP_RSAPD == PKCS2
@@ -920,6 +927,11 @@ int cp_rsa_ver(uint8_t *sig, size_t sig_len, const uint8_t *msg, size_t msg_len,
 		bn_new(eb);
 
 		bn_read_bin(eb, sig, sig_len);
+
+		/* The signature representative must be in [0, n - 1]. */
+		if (bn_cmp(eb, pub->crt->n) != RLC_LT) {
+			RLC_THROW(ERR_NO_VALID);
+		}
 
 		bn_mxp(eb, eb, pub->e, pub->crt->n);
 
